@@ -323,11 +323,32 @@ impl<'s, T: Kind, N: Unsigned + Send + Sync, U: UpdateMap<T> + PartialEq + Send 
             "fromiter" => {
                 let h = n(1)?;
                 let vs = vals(3)?;
-                match *w.get(2)? {
-                    "list" => self.store(h, List::try_from_iter(vs).map(Handle::L)),
-                    "vec" => self.store(h, Vector::try_from_iter(vs).map(Handle::V)),
+                // the inherent constructor and the `ssz::TryFromIter` trait impl are two public
+                // entry points to the same construction: they must agree
+                let (a, b) = match *w.get(2)? {
+                    "list" => (
+                        List::try_from_iter(vs.clone()).map(Handle::L),
+                        <List<T, N, U> as ssz::TryFromIter<T>>::try_from_iter(vs).map(Handle::L),
+                    ),
+                    "vec" => (
+                        Vector::try_from_iter(vs.clone()).map(Handle::V),
+                        <Vector<T, N, U> as ssz::TryFromIter<T>>::try_from_iter(vs).map(Handle::V),
+                    ),
                     _ => return None,
+                };
+                let same = match (&a, &b) {
+                    (Ok(x), Ok(y)) => {
+                        let vx: Vec<T> = both!(x, c => c.iter().cloned().collect());
+                        let vy: Vec<T> = both!(y, c => c.iter().cloned().collect());
+                        vx == vy
+                    }
+                    (Err(x), Err(y)) => fmt_err(x) == fmt_err(y),
+                    _ => false,
+                };
+                if !same {
+                    return Some("err trait-paths-differ".to_string());
                 }
+                self.store(h, a)
             }
             "fromiterslow" => {
                 let h = n(1)?;
@@ -385,6 +406,11 @@ impl<'s, T: Kind, N: Unsigned + Send + Sync, U: UpdateMap<T> + PartialEq + Send 
             "tovec" => {
                 let c = self.coll(n(1)?)?;
                 let vs: Vec<T> = both!(c, x => x.to_vec());
+                // `for v in &collection` (the IntoIterator impl) is the same traversal
+                let ws: Vec<T> = both!(c, x => x.into_iter().cloned().collect());
+                if vs != ws {
+                    return Some("err iter-paths-differ".to_string());
+                }
                 let vs: Vec<String> = vs.iter().map(vhex).collect();
                 format!("ok {}", vs.join(" ")).trim_end().to_string()
             }
